@@ -265,6 +265,36 @@ def probe_optim(spec):
             r['value'] = float(res.value)
             r['duals'] = dump_duals(res.duals)
         o['runs'].append(r)
+    if 'lp2' in spec:
+        # the same object with other bounds / right-hand sides of the same shape, solved again
+        d2 = spec['lp2']
+        op.l = np.asarray(d2['l'], float)
+        op.u = np.asarray(d2['u'], float)
+        if len(d2['rows']):
+            op.b = np.asarray(d2['b'], float)
+        o['problem2'] = dump_problem(op)
+        o['runs2'] = []
+        for kw in opts.get('solvers', [{}]):
+            if kw.get('make_soft_problem'):
+                continue
+            r = {'kw': kw}
+            try:
+                res = op.optimize(**kw)
+            except Exception as e:
+                r['solve'] = 'crash'
+                r['error'] = repr(e)[:300]
+                o['runs2'].append(r)
+                continue
+            if isinstance(res, str):
+                r['solve'] = res
+                if res != 'inaccurate':
+                    r['farkas'] = farkas_multipliers(o['problem2'])
+            else:
+                r['solve'] = 'optimal'
+                r['x'] = [float(v) for v in res.x]
+                r['value'] = float(res.value)
+                r['duals'] = dump_duals(res.duals)
+            o['runs2'].append(r)
     _cvx.Problem.solve = _orig_solve
     return o
 
